@@ -73,6 +73,15 @@ for _k in (0, 1, 2, 3, 7, 20, 64, 300):
     PROGRAMS.append(('copy_%d' % _k, prog_copy_k(_k), lambda t, k=_k: expect_copy_k(k, t), 0))
 PROGRAMS.append(('cat', prog_cat(False), lambda t: expect_cat(t, False), 0))
 PROGRAMS.append(('cat_exit', prog_cat(True), lambda t: expect_cat(t, True), 0))
+def prog_cat_leftnest():
+    # a two-round copy loop whose loop head is `항...💗!?`: the label heart sits under `!` in the LEFT operand of `?`
+    # (area [[💗]![_]]?[_]) and the loop is closed by a second command of the same shape; plain commands precede both
+    from . import refparse
+    half = '형... 흑 항.... 항. 흑... 형 하앗... 형... 하앙... 형 항...💗!?'
+    return refparse.commands_only(refparse.parse(half + '\n' + half + '\n'))
+
+
+PROGRAMS.append(('cat_leftnest', prog_cat_leftnest(), lambda t: t + NANTXT * max(0, 2 - len(t)), 0))
 PROGRAMS.append(('cat_cushion', prog_cat_cushion(2), lambda t: expect_cat(t, False), 0))
 PROGRAMS.append(('cat_cushion_mul', prog_cat_cushion(2, 'mul'), lambda t: expect_cat(t, False), 0))
 PROGRAMS.append(('cat_cushion_neg', prog_cat_cushion(1, 'neg'), lambda t: expect_cat(t, False), 0))
